@@ -319,7 +319,11 @@ Ltac nclose_step :=
   | |- nkeep _ _ _ (map_others ?e _ _ _) => apply (nkeep_same_k _ _ _ e); [eobj_tac|]
   end.
 
-Ltac nclose := cbn [res_exec lp_exec]; repeat nclose_step.
+(* (the two rewrites: the dead first write of a disconnected MSendPost) *)
+Ltac nclose :=
+  cbn [res_exec lp_exec];
+  rewrite ?upd_object_map_others_upd_object_const, ?upd_object_upd_object_const;
+  repeat nclose_step.
 
 Ltac nstep :=
   match goal with
@@ -1218,15 +1222,20 @@ Proof.
     cbn [exec_micro]. destruct (get_chan e h) as [s|] eqn:Hg; cbn [res_exec]; [|exact H0].
     apply get_chan_nth in Hg. cbv zeta.
     assert (Hne : h <> n) by (eapply bw_neq; [exact H0|exact Hg|not_notify]).
-    match goal with |- context [upd_object e h ?f] => set (e1 := upd_object e h f) end.
-    assert (H1 : bw e1) by (unfold e1; eapply bw_upd_object_kind_k; [exact Hg|not_notify|exact H0]).
-    match goal with |- context [if ?c then map_others e1 me ?p ?f else e1] =>
-      set (e2 := if c then map_others e1 me p f else e1) end.
-    assert (H2 : bw e2).
-    { unfold e2. destruct (Nat.eqb _ 1); [|exact H1]. apply bw_map_others_other_k; assumption. }
-    clearbody e2. clear H1. clearbody e1.
-    apply bw_log_op_k. destruct (ho_rx (get_h e2 h)); [|exact H2].
-    eapply bw_same_k; [reflexivity..|exact H2].
+    assert (H1 : forall o', bw (upd_object e h (fun _ => o')))
+      by (intros o'; eapply bw_upd_object_kind_k; [exact Hg|not_notify|exact H0]).
+    assert (H2 : forall o' (c : bool),
+               bw (if c then map_others (upd_object e h (fun _ => o')) me (pending_on h) set_runnable
+                   else upd_object e h (fun _ => o'))).
+    { intros o' c. destruct c; [|apply H1]. apply bw_map_others_other_k; [exact Hne|apply H1]. }
+    apply bw_log_op_k.
+    match goal with |- context [ho_rx ?x] => destruct (ho_rx x) end; cbv iota.
+    + eapply bw_same_k; [reflexivity..|apply H2].
+    + (* receiver gone: the second write of the channel object replaces the first *)
+      destruct (Nat.eqb _ 1);
+        rewrite ?upd_object_map_others_upd_object_const, ?upd_object_upd_object_const.
+      * apply (H2 _ true).
+      * apply (H2 _ false).
   - (* MTrackDrop *)
     cbn [exec_micro]. destruct (ho_track (get_h e k)) eqn:Hk; cbn [res_exec].
     + apply bw_log_op_k.
